@@ -95,6 +95,7 @@ func runHistory(r *sup.CaseResult, ops []mfs.Op, gen *mfs.Gen, nops int, every i
 	subj := mfs.NewSubject(root)
 	subj.Scribble = scribble
 	model := mfs.NewModel()
+	model.SelfCopySnapshot = true // "copies are deep": a directory copied to an absent path below itself receives the source as it was
 	if gen != nil {
 		gen.M = model
 	}
@@ -249,8 +250,13 @@ func main() {
 // namePool: every fourth history uses names one of which is a string prefix of another ("a" /
 // "ab"): code that compares paths as strings instead of element by element confuses them.
 func namePool(idx int) []string {
-	if idx%4 == 1 {
+	switch idx % 8 {
+	case 1, 5:
 		return []string{"a", "ab", "b"}
+	case 3:
+		return []string{"a", "..a", "..."} // begin with dots without being "." or ".."
+	case 7:
+		return []string{"a", "a.tmp", "b"} // a sibling that looks like a temporary name of another
 	}
 	return []string{"a", "b", "c"}
 }
